@@ -1,6 +1,6 @@
 (* C19: property theorems (statements in full; proofs in Proofs*.v). *)
 From Coq Require Import List NArith ZArith Bool.
-From C19 Require Import Gen Model Spec ProofsPtr ProofsPatch ProofsParse RTNum ProofsDouble RTStr RTDefs RTFinal.
+From C19 Require Import Gen Model Spec ProofsPtr ProofsPatch ProofsParse ProofsNum RTNum ProofsDouble RTStr RTDefs RTFinal.
 Import ListNotations.
 Local Open Scope N_scope.
 
@@ -28,6 +28,32 @@ Proof.
   repeat split; try apply Hv; try apply He; try apply Hm; auto; Lia.lia.
 Qed.
 Print Assumptions c19_total_inner.
+
+(* Equality and ordering of integer nodes are equality and ordering of the integers they denote,
+   for every one of the 16 pairs of node kinds (JsonUInt, JsonInt, JsonUInt64, JsonInt64) and every
+   value in the range of its C++ type: Model.compare_numbers follows Json.cpp's sixteen
+   CompareNumbers specialisations with their static_casts as machine conversions; operator==
+   (num_eq_cpp, and the value-based jv_eqb used by the patch "test" operation and by tree equality)
+   holds iff the two integers are the same, operator< iff the first is smaller. *)
+Theorem c19_int_equality :
+  forall (a b : jv) (za zb : Z),
+    int_node a = true -> int_node b = true -> num_val a = Some za -> num_val b = Some zb ->
+    compare_numbers a b = Some (three za zb) /\
+    (num_eq_cpp a b = true <-> za = zb) /\
+    (num_lt_cpp a b = true <-> (za < zb)%Z) /\
+    (jv_eqb a b = true <-> za = zb).
+Proof.
+  intros a b za zb Ha Hb Va Vb.
+  destruct (num_eq_cpp_spec a b za zb Ha Hb Va Vb) as [H1 [H2 H3]].
+  split; [exact (compare_numbers_spec a b za zb Ha Hb Va Vb)|].
+  split; [exact H1|]. split; [exact H2|]. rewrite <- H3. exact H1.
+Qed.
+Print Assumptions c19_int_equality.
+Example c19_uint64_max_is_not_minus_one :
+  jv_eqb (JUInt64 18446744073709551615) (JInt64 (-1)) = false /\
+  num_eq_cpp (JInt (-1)) (JUInt64 18446744073709551615) = false /\
+  num_lt_cpp (JInt64 (-9223372036854775808)) (JUInt64 9223372036854775808) = true.
+Proof. vm_compute. repeat split. Qed.
 
 (* The parser model is a function of the text alone: parsing a text after any history of other
    texts (valid, failing at top level, failing inside open containers) gives what parsing it
